@@ -180,6 +180,8 @@ pub struct Run<'a> {
     pub meta: serde_json::Value,
     pub last: Reaction,
     pub diverged: bool,
+    /// the round the MODEL of the node is in after the last compared step (gates directed oracles)
+    pub model_round: Option<u64>,
 }
 
 impl<'a> Run<'a> {
@@ -206,6 +208,7 @@ impl<'a> Run<'a> {
         let node = self.w.node;
         let (rf, rc, rm) = canon_real(&mut self.w.u, r);
         let (mf, mc, mm, st) = canon_model(&self.w.u, node, ans);
+        self.model_round = sexp::items(&st).get(1).and_then(|x| x.parse().ok());
         if std::env::var("HS_TRACE").is_ok() {
             let cut = |v: &Vec<String>| v.iter().map(|x| x.chars().take(90).collect::<String>()).collect::<Vec<_>>();
             eprintln!("#{} {} real: f={:?} c={:?} m={:?}\n      model: f={:?} c={:?} m={:?} {}", self.log.len(), what, cut(&rf), cut(&rc), cut(&rm), cut(&mf), cut(&mc), cut(&mm), st);
@@ -622,7 +625,7 @@ impl Director {
         let tries = 2 * run.w.u.n() + 2;
         for _ in 0..tries {
             let ready = match template {
-                7 | 8 => run.w.u.leader(self.round + 1) == node && run.w.u.leader(self.round) != node,
+                7 | 8 | 13 => run.w.u.leader(self.round + 1) == node && run.w.u.leader(self.round) != node,
                 9 => self.tip.round + 1 == self.round && run.w.u.leader(self.round) != node,
                 12 => self.tip.round + 1 == self.round && run.w.u.leader(self.round + 2) == node,
                 _ => true,
@@ -926,6 +929,52 @@ impl Director {
                 self.give(run, Stim::Msg(ConsensusMessage::Propose(spliced))).await;
                 self.give(run, Stim::Timer).await;
             }
+            13 => {
+                // (C04 last clause / C19 "exactly when") A vote that NAMES member `a` but does not verify
+                // reaches the node, which collects the votes of this round, before a's genuine vote.
+                // It must be rejected without a trace: the genuine votes of a minimal quorum of the
+                // others (which contains `a`) must still produce the QC, and the node proposes.
+                let next = run.w.u.leader(round + 1);
+                if next != node || run.diverged || run.model.is_none() || run.model_round.map_or(true, |r| r > round) {
+                    return;
+                }
+                let b = run.w.u.mk_block(leader, round, self.tip.clone(), tc, vec![]);
+                self.blocks.insert(b.digest().0, b.clone());
+                let mut quorum_set: Vec<u64> = vec![];
+                let mut acc = 0;
+                for j in others(&run.w.u, node) {
+                    if run.w.u.stake(j) > 0 && acc < run.w.u.quorum() {
+                        quorum_set.push(j);
+                        acc += run.w.u.stake(j);
+                    }
+                }
+                if acc < run.w.u.quorum() {
+                    return;
+                }
+                let a = quorum_set[0];
+                let mut forged = run.w.u.mk_vote(b.digest(), round, a);
+                forged.signature = if self.rng.gen_bool(0.5) {
+                    run.w.u.junk_sig()
+                } else {
+                    // a's genuine signature, but over a vote for another block of the round
+                    let other = crate::sym::sha(&self.rng.gen::<u64>().to_le_bytes());
+                    run.w.u.mk_vote(other, round, a).signature
+                };
+                self.give(run, Stim::Msg(ConsensusMessage::Vote(forged))).await;
+                for j in &quorum_set {
+                    let v = run.w.u.mk_vote(b.digest(), round, *j);
+                    self.give(run, Stim::Msg(ConsensusMessage::Vote(v))).await;
+                }
+                // (the monitor judges this: a quorum of valid votes must yield the QC and the proposal)
+                // let the round go on normally
+                self.give(run, Stim::Msg(ConsensusMessage::Propose(b.clone()))).await;
+                if let Some(nb) = self.node_blocks.get(&(round + 1)).cloned() {
+                    self.qcs.push(nb.qc.clone());
+                    self.tip = nb.qc;
+                    self.tc = None;
+                    self.round = round + 1;
+                }
+            }
             12 => {
                 // (C01, second attack) A Byzantine leader X of round R+1 holds the only QC for B_R and
                 // shows its block B_{R+1} to the node V alone (V leads R+2), together with its own vote
@@ -1029,9 +1078,17 @@ impl Director {
                 let round = self.round;
                 let wrong = (run.w.u.leader(round) % u_n) + 1;
                 if wrong != node {
-                    let b = run.w.u.mk_block(wrong, round, self.tip.clone(), None, vec![]);
+                    // half of the time the block names a batch the node does not hold, and the batch
+                    // arrives afterwards: the rejection must not depend on the payload check (a block
+                    // parked for its payload comes back through the loop-back, past `handle_proposal`)
+                    let late = if self.rng.gen_bool(0.5) { Some(crate::sym::sha(&self.rng.gen::<u64>().to_le_bytes())) } else { None };
+                    let tc = if self.tip.round + 1 == round { None } else { self.tc.clone() };
+                    let b = run.w.u.mk_block(wrong, round, self.tip.clone(), tc, late.iter().cloned().collect());
                     self.blocks.insert(b.digest().0, b.clone());
                     self.give(run, Stim::Msg(ConsensusMessage::Propose(b))).await;
+                    if let Some(d) = late {
+                        self.give(run, Stim::Batch(d)).await;
+                    }
                 }
             }
             2 => {
@@ -1162,7 +1219,7 @@ pub fn run_scenario(seed: u64, steps: usize, rep: &mut Report, use_model: bool) 
         let db = w.db_path();
         let mon = Monitor::new(&w.u, node);
         let meta = json!({"seed": seed, "stakes": stakes, "node": node});
-        let mut run = Run { w, model: if use_model { Some(Model::spawn()) } else { None }, mon, rep, log: vec![], meta, last: Reaction::default(), diverged: false };
+        let mut run = Run { w, model: if use_model { Some(Model::spawn()) } else { None }, mon, rep, log: vec![], meta, last: Reaction::default(), diverged: false, model_round: None };
         run.boot_check().await;
         let mut d = Director {
             rng: SmallRng::seed_from_u64(seed ^ 0x5eed),
@@ -1180,7 +1237,7 @@ pub fn run_scenario(seed: u64, steps: usize, rep: &mut Report, use_model: bool) 
             batches_known: vec![],
         };
         d.absorb(&mut run);
-        let template = d.rng.gen_range(0, 13u32);
+        let template = d.rng.gen_range(0, 14u32);
         let template_at = d.rng.gen_range(0, steps.max(1) / 2 + 1);
         for step in 0..steps {
             if run.diverged {
@@ -1240,7 +1297,7 @@ pub fn replay(path: &str, rep: &mut Report) {
         let mon = Monitor::new(&w.u, node);
         let meta = json!({"seed": seed, "stakes": stakes, "node": node});
         let model = if std::env::var("HS_REPLAY_MODEL").is_ok() { Some(Model::spawn()) } else { None };
-        let mut run = Run { w, model, mon, rep, log: vec![], meta, last: Reaction::default(), diverged: false };
+        let mut run = Run { w, model, mon, rep, log: vec![], meta, last: Reaction::default(), diverged: false, model_round: None };
         run.boot_check().await;
         for s in stimuli {
             run.apply(s).await;
